@@ -86,8 +86,36 @@ def tcp6_line(sa_text, da_text, sp, dp):
     return b"PROXY TCP6 " + sa_text + b" " + da_text + b" " + str(sp).encode() + b" " + str(dp).encode() + CRLF
 
 
-UNKNOWN_TAILS = [b"", b" ", b"  ", b" a", b" a b c d e", b" a b c d e f g h", b" ffff:ffff:ffff:ffff:ffff:ffff:ffff:ffff ffff:ffff:ffff:ffff:ffff:ffff:ffff:ffff 65535 65535",
+UNKNOWN_TAILS = [b" UNKNOWN", b" UNKNOWN UNKNOWN", b" family=UNKNOWN peer=10.0.0.1", b"  UNKNOWN ", b" xUNKNOWN", b" PROXY UNKNOWN", b" PROXY", b" TCP4", b" TCP6 UNKNOWN TCP4",
+                 b"", b" ", b"  ", b" a", b" a b c d e", b" a b c d e f g h", b" ffff:ffff:ffff:ffff:ffff:ffff:ffff:ffff ffff:ffff:ffff:ffff:ffff:ffff:ffff:ffff 65535 65535",
                  b" \xc3\xa9", b" \n", b" \n foo", b" x\ny", b" \x00", b" TCP4 1.2.3.4 5.6.7.8 1 2", b" \xe2\x82\xac\xe2\x82\xac", b" \xf0\x9f\x98\x80"]
+
+
+def long_lines():
+    """Accepted TCP6 / TCP4 / UNKNOWN lines of every total length from 98 to 107 bytes (and TCP6
+    lines of 108+ that must be rejected): the long spellings std accepts (zero-padded groups, the
+    45-character IPv4-in-IPv6 form) are the only way a TCP line gets near the limit."""
+    out = []
+    a45 = b"0000:0000:0000:0000:0000:ffff:255.255.255.255"
+    a39 = b"ffff:ffff:ffff:ffff:ffff:ffff:ffff:ffff"
+    a38 = b"fff:ffff:ffff:ffff:ffff:ffff:ffff:ffff"
+    for src, dst in ((a45, a39), (a39, a45), (a45, a38), (a45, a45), (a39, a39)):
+        for sp in (b"1", b"80", b"443", b"8080", b"65535"):
+            for dp in (b"2", b"81", b"444", b"8081", b"65534"):
+                l = b"PROXY TCP6 " + src + b" " + dst + b" " + sp + b" " + dp + CRLF
+                if 98 <= len(l) <= 110:
+                    out.append(l)
+    # de-duplicate by length class (keep two per length)
+    seen = {}
+    keep = []
+    for l in out:
+        if seen.get(len(l), 0) < 3:
+            seen[len(l)] = seen.get(len(l), 0) + 1
+            keep.append(l)
+    for total in range(98, 108):
+        keep.append(b"PROXY UNKNOWN " + b"z" * (total - 16) + CRLF)
+    keep.append(b"PROXY TCP4 255.255.255.255 255.255.255.254 65535 65534\r\n")
+    return keep
 
 
 def valid_lines(rng, n):
@@ -118,6 +146,7 @@ def valid_lines(rng, n):
             if rng.random() < 0.3:
                 tail = b" " + bytes(rng.choice(b"abcXYZ 0123456789.:") for _ in range(rng.randint(0, 80)))
             out.append(b"PROXY UNKNOWN" + tail + CRLF)
+    out.extend(long_lines())
     # lengths pinned around the limit
     for total in (105, 106, 107, 108, 109):
         pad = total - len(b"PROXY UNKNOWN \r\n")
@@ -129,7 +158,7 @@ def valid_lines(rng, n):
 
 INVALID_KEYWORD = [b"proxy", b"PROX", b"PROXYY", b"PROXZ", b"", b"P", b"XPROXY", b"PROXY\x00", b"Proxy", b"\xc3\xa9"]
 INVALID_PROTO = [b"tcp4", b"TCP", b"TCP5", b"TCP44", b"TCP4\x00", b"UNKNOW", b"UNKNOWNX", b"unknown", b"UDP4", b"", b"T", b"\n", b"TCP6x"]
-INVALID_ADDR4 = [b"", b"1.2.3", b"1.2.3.4.5", b"01.2.3.4", b"1.2.3.256", b"1.2.3.-4", b"::1", b"1.2.3.4x", b"a.b.c.d", b"1..3.4", b"1.2.3.", b".1.2.3",
+INVALID_ADDR4 = [b"::ffff:1.2.3.4", b"::ffff:102:304", b"::1.2.3.4", b"0:0:0:0:0:ffff:1.2.3.4", b"64:ff9b::1.2.3.4", b"::ffff:0:1.2.3.4", b"2002:102:304::", b"::", b"", b"1.2.3", b"1.2.3.4.5", b"01.2.3.4", b"1.2.3.256", b"1.2.3.-4", b"::1", b"1.2.3.4x", b"a.b.c.d", b"1..3.4", b"1.2.3.", b".1.2.3",
                  b"1.2.3.0004", b"1.2.3.4\n", b"1234.1.1.1", b"127.0.0.0001", b"0x1.2.3.4", b"+1.2.3.4", b"1.2.3.4 ", b"1,2,3,4", b"\xc3\xa9"]
 INVALID_ADDR6 = [b"", b"1.2.3.4", b"::1::", b"1::2::3", b"12345::", b"g::", b":::", b":", b"1:2:3:4:5:6:7", b"1:2:3:4:5:6:7:8:9", b"1:2:3:4:5:6:7::8",
                  b"::1.2.3", b"::1.2.3.4.5", b"1.2.3.4::", b"::01.2.3.4", b"1:2:3:4:5:6:7:1.2.3.4", b"::ffff:256.1.1.1", b"::%eth0", b"[::1]", b"::1 ", b"0ffff::",
